@@ -104,6 +104,11 @@ func genEngine(o *Out, r *rand.Rand, thorough bool) {
 		hx("reset:4k3/8/8/8/1b6/8/3N4/4K2R w - - 0 1", "mv:e1f1", "mv:e8f8", "mv:f1e1", "mv:f8e8", "mv:e1f1", "mv:e8f8", "mv:f1e1", "mv:f8e8", "mv:d2f3", "mv:d2b3", "mv:zzzz", "mv:e1e2", "tb", "mv:d2e4", "mv:e1d1"),
 		hx("reset:4k3/8/8/8/1b6/8/3N4/4K2R w - - 98 70", "mv:e1f1", "mv:e8f8", "mv:d2f3", "mv:f1g1", "tb", "mv:d2c4", "mv:f1e1"),
 		hx("reset:4k3/8/8/8/8/8/8/R3K2n w Q - 0 1", "mv:a1a8", "mv:e8e7", "mv:a8h8", "mv:e7e6", "mv:h8h1", "mv:e6e5", "mv:e1e2", "mv:h1h8", "tb"),
+		// a game set up with a clock that is larger than its history (the record says 7, 30 or 250 half-moves were played before it): the
+		// repetition scan must stop at the set-up position; a third and a fifth occurrence complete while it looks back that far
+		hx("reset:4k1n1/8/8/8/8/8/8/4K1N1 w - - 7 30", "mv:g1f3", "mv:g8f6", "mv:f3g1", "mv:f6g8", "mv:g1f3", "mv:g8f6", "mv:f3g1", "mv:f6g8", "mv:e1e5", "mv:g1f3", "mv:g8f6", "mv:f3g1", "mv:f6g8", "mv:g1f3", "mv:g8f6", "mv:f3g1", "mv:f6g8", "tb", "mv:g8h6"),
+		hx("reset:4k1n1/8/8/8/8/8/8/4K1N1 b - - 30 55", "mv:g8f6", "mv:g1f3", "mv:f6g8", "mv:f3g1", "mv:g8f6", "mv:g1f3", "mv:f6g8", "mv:f3g1", "mv:zzzz", "tb", "tb", "mv:f6g8", "mv:f3g1"),
+		hx("reset:4k1n1/8/8/8/8/8/8/4K1N1 w - - 250 200", "mv:g1f3", "mv:g8f6", "mv:f3g1", "mv:f6g8", "mv:g1f3", "mv:g8f6", "mv:f3g1", "mv:f6g8", "mv:g1h3"),
 	} {
 		line := "engine 0 ; " + sc
 		o.do(line)
